@@ -207,6 +207,10 @@ def pick(rng, gen):
     return kind, text
 
 
+FIRST_USE = ['这是**“重要”**。\n', 'so-called*“experts”* agree\n', '「*(aside)*」 a*“b”*c\n', '&copy; &Aacute; &#x1F600; &nosuch;\n', '[ẞ]\n\n[SS]: /u\n', '\tcode\n\n- a\n\tb\n',
+             '*a* **b** `c` [d](e) <f@g.h> ~~s~~ <b>x</b> \\* &amp;\n', '| a |\n|---|\n| b |\n', '¡*hola*! «*x*» …*y*…\n', '[Ünï]: /u "t"\n\n[ünï] [ÜNÏ][]\n']
+
+
 def run(ctx):
     sz = SIZES[ctx.tier]
     rng = ctx.rng
@@ -223,6 +227,14 @@ def run(ctx):
                 for r in RENDERERS:
                     check_inproc(ctx, w, r, 'pinned', tmpdir)
                 check_cli(ctx, [w], rng.choice(RENDERERS), 'pinned', tmpdir)
+        # every command-line run is a new process and meets each construct for the first time there: tables and caches that are
+        # filled on first use (Unicode punctuation next to emphasis, entity names, case folding of labels, tab stops) must give the
+        # first document what they give every later one
+        for i, w in enumerate(FIRST_USE):
+            if i % ctx.nshards == ctx.shard:
+                for r in ('Html', 'Markdown'):
+                    check_cli(ctx, [w], r, 'first-use', tmpdir)
+                check_cli(ctx, [w, 'plain\n', w], 'Html', 'first-use', tmpdir)
         for i, ex in enumerate(workloads.spec()):
             if i % ctx.nshards == ctx.shard and workloads.only_lf(ex['markdown']):
                 for r in ('Html', rng.choice(RENDERERS[1:])):
